@@ -399,6 +399,9 @@ def materialize(case):
         ftxt = "".join(l + "\n" for l in top)
         for t, ls in tables.items():
             ftxt += "\n[%s]\n" % t + "".join(l + "\n" for l in ls)
+        if tk:
+            # (in the kebab-spelled variant of every file) tables of other tools sharing the file (book/src/config.md shows one): they are skipped, wherever their names sort
+            ftxt += "\n[a0-other-tool]\nlib-name = \"foreign\"\nverbose = true\n\n[zz-other-tool]\nunsafe-references-in-callbacks = \"maybe\"\n"
     # cli
     cli = list(s.aux(b))
     for sl in order:
